@@ -42,20 +42,21 @@ type Outcome struct {
 }
 
 type Sched struct {
-	X               *explore.Exec
-	threads         []*Thread
-	cur             *Thread
-	now             int64 // virtual nanoseconds since Base
-	Base            time.Time
-	timers          []*Timer
-	Horizon         int64
-	steps           int64
-	abort           bool
-	out             Outcome
-	doneCh          gate
-	seq             int64
-	NoTimeDeviation bool
-	GoMaxProcs      int
+	X                 *explore.Exec
+	threads           []*Thread
+	cur               *Thread
+	now               int64 // virtual nanoseconds since Base
+	Base              time.Time
+	timers            []*Timer
+	Horizon           int64
+	steps             int64
+	abort             bool
+	out               Outcome
+	doneCh            gate
+	seq               int64
+	NoTimeDeviation   bool
+	PreemptionBounded bool
+	GoMaxProcs        int
 	// Trace, when non-nil, receives one line per scheduling decision (debugging / replays).
 	Trace   func(string)
 	started time.Time
@@ -71,13 +72,16 @@ type Options struct {
 	Horizon    int64     // maximum number of scheduling steps (default 20000)
 	GoMaxProcs int
 	Trace      func(string)
+	// PreemptionBounded selects CHESS-style costs (free choice at blocking points) instead of
+	// the default delay bounding.
+	PreemptionBounded bool
 }
 
 // Run executes main as model thread 0 under a fresh scheduler and returns when every
 // thread has finished, a deadlock or the horizon was reached (remaining threads are
 // unwound).
 func Run(x *explore.Exec, o Options, main func()) Outcome {
-	s := &Sched{X: x, Base: o.Base, Horizon: o.Horizon, GoMaxProcs: o.GoMaxProcs, Trace: o.Trace}
+	s := &Sched{X: x, Base: o.Base, Horizon: o.Horizon, GoMaxProcs: o.GoMaxProcs, Trace: o.Trace, PreemptionBounded: o.PreemptionBounded}
 	if s.Horizon == 0 {
 		s.Horizon = 20000
 	}
@@ -265,8 +269,13 @@ func (s *Sched) pickNext(from *Thread) {
 				continue
 			}
 		}
+		// Deviation cost of a scheduling choice.  Default: delay bounding - the deterministic
+		// scheduler (keep running the current thread; when it blocks, the lowest-id enabled
+		// thread) is free and every other choice costs one deviation.  PreemptionBounded:
+		// only switching away from a still-enabled thread costs (CHESS); choices at blocking
+		// points are free and all explored.
 		costs := make([]int, len(en))
-		if curEnabled {
+		if curEnabled || !s.PreemptionBounded {
 			for i := 1; i < len(costs); i++ {
 				costs[i] = 1
 			}
